@@ -84,11 +84,13 @@ class HasSpace(Obligation):
 class Race(Obligation):
     tier = 'T4'
 
-    def __init__(self, ctx, muts):
+    def __init__(self, ctx, muts, atomic=()):
         self.muts = muts
-        self.id = 'C19.d-' + '+'.join(muts)
+        self.atomic = set(atomic)      # indices of mutator calls executed as one step (not interleaved internally)
+        self.id = 'C19.d-' + '+'.join(muts) + ('-atomic%s' % ''.join(str(i) for i in sorted(atomic)) if atomic else '')
         self.desc = 'wait_for_available_space interleaved at every shared operation with %s (symbolic limits, counts, deltas): never left parked with capacity free; never resumes without having seen capacity' % ' and '.join(muts)
-        self.bounds = {'activities': 1 + len(muts), 'waiter_polls': '<= 6', 'granularity': 'atomic op / Notify call'}
+        self.bounds = {'activities': 1 + len(muts), 'waiter_polls': '<= 6', 'granularity': 'atomic op / Notify call',
+                       'calls_executed_as_one_step': sorted(atomic)}
         self.max_paths = 400000
 
     def body(self, ip, p):
@@ -96,6 +98,18 @@ class Race(Obligation):
         cell, h = mk_flow(ctx, p)
         w = start_waiter(ctx, p, cell, 'waiter')
         acts = [w] + [start_mutator(ctx, p, cell, '%s%d' % (m, i), m) for i, m in enumerate(self.muts)]
+        for i, a in enumerate(acts[1:]):
+            if i in self.atomic:
+                inner = a.gen
+
+                def whole(inner=inner):
+                    yield ('sched', 'whole call')
+                    try:
+                        while True:
+                            next(inner)
+                    except StopIteration as e:
+                        return e.value
+                a.gen = whole()
         for a in acts:          # run each activity's local prefix up to its first shared operation
             ev = next(a.gen)
         steps = run_activities(p, acts)
@@ -157,8 +171,9 @@ class TwoWaiters(Obligation):
 def obligations(ctx, cfg):
     obs = [HasSpace(), Race(ctx, ['dec']), Race(ctx, ['inc']), TwoWaiters()]
     if cfg['tier'] == 'thorough':
-        obs.append(Race(ctx, ['dec', 'inc']))
-        obs.append(Race(ctx, ['dec', 'dec']))
+        obs.append(Race(ctx, ['dec', 'inc'], atomic=(1,)))
+        obs.append(Race(ctx, ['inc', 'dec'], atomic=(1,)))
+        obs.append(Race(ctx, ['dec', 'dec'], atomic=(1,)))
     return obs
 
 
